@@ -35,7 +35,7 @@ LEVEL_NOTE = ("Trusted: the interposer; tlslite's own signer is used by the "
               "Delegated credentials are built with tlslite's own "
               "Credential / DelegatedCredential classes (as tests/tlstest.py "
               "does).")
-BUDGET = {"quick": 60, "thorough": 1200}
+BUDGET = {"quick": 300, "thorough": 1200}
 CHUNK = 8
 SITES = ["ske_sig", "srv_cv13", "cli_cv12", "cli_cv13", "pha", "srp",
          "psk", "finished", "rsa_kx", "checker", "dc"]
@@ -54,7 +54,7 @@ AUTH_ALERTS = {51, 47, 20, 10, 40, 115, 50, 42, 21, 71, 43, 46}
 
 
 def plan(tier, base_seed):
-    n = {"quick": 1500, "thorough": 300000}[tier]
+    n = {"quick": 3300, "thorough": 300000}[tier]
     jobs = [{"seed": base_seed * 1000003 + i, "site": SITES[i % len(SITES)]}
             for i in range(n)]
     for j in jobs[:3]:
